@@ -5,7 +5,7 @@ import ast
 
 import sympy as sp
 
-from ..astq import Canon, Inliner, U, kwarg, statements
+from ..astq import Canon, Inliner, U, canon_lines, canon_name, kwarg, parse_canon, rhs_of, statements, unify
 from ..cfg import CFG, header_walk
 from ..index import AnalysisError, walk_no_nested
 from ..normalform import NFUnsupported, Normalizer, equal
@@ -47,7 +47,6 @@ def r1_constant(ctx):
               f"prediction types {unhandled} have no handler (exhaustiveness over PredictionType {members})", construct="exhaustive dispatch")
     if unhandled and tail:
         handled[unhandled[0]] = tail[0].value
-    from ..astq import Canon
     cn = Canon(f.node)
     order = "sorted(range(len($1)), key=$1.__getitem__, reverse=True)"
     want = {"MAX": "np.nanmax($2, axis=0)", "MEAN": "np.nanmean($2, axis=0)", "LAST": f"$2[{order}[0]]",
@@ -61,17 +60,18 @@ def r1_constant(ctx):
         ctx.check(got == want[m] or got in alt.get(m, ()), "C20.R1", f, handled.get(m) or f.node, f"{m} -> {want[m]}   ($1 = times, $2 = values)",
                   f"prediction type {m} returns `{got}`; documented `{want[m]}` ($1 = times, $2 = values)", construct=f"prediction type {m}")
     g = ix.func(CA, "ConstantPredictionAlgorithm._get_individual_last_values", "C20.R1")
-    ctx.check("dict(zip(features, self._get_feature_values(times, values)))" in U(g.node), "C20.R1", g, g.node, "values keyed by the feature names", "values are no longer keyed by the feature names")
+    ctx.check("return dict(zip($k0, $0._get_feature_values($1, $2)))" in canon_lines(g.node), "C20.R1", g, g.node, "values keyed by the feature names", "values are no longer keyed by the feature names")
     h = ix.func(CA, "ConstantPredictionAlgorithm._compute_individual_parameters", "C20.R1")
-    hs = U(h.node)
-    ok = "features=model.features" in hs and "dataset.get_times_patient(individual)" in hs and "dataset.get_values_patient(individual)" in hs and "str(idx)" in hs and "idx = dataset.indices[individual]" in hs
+    hl = canon_lines(h.node, True, True)
+    ok = unify(hl, ["for (range($2.n_individuals), ?i)", "?ip = $0._get_individual_last_values($2.get_times_patient(?i), $2.get_values_patient(?i).numpy(), features=$1.features)",
+                    "?ips.add_individual_parameters(str($2.indices[?i]), ?ip)", "return ?ips"]) is not None
     ctx.check(ok, "C20.R1", h, h.node, "each individual's own visits, keyed by its identifier and the model's features", "the personalisation no longer uses each individual's own visits / identifier / the model's features")
     m = ix.func("leaspy.models.constant", "ConstantModel.compute_individual_trajectory", "C20.R1")
     rets = Canon(m.node).returns()
-    ok = len(rets) == 1 and rets[0].replace(" ", "") in ("torch.tensor([[[$2[f]forfin$0.features]]*len($1)],dtype=torch.float32)",)
+    ok = len(rets) == 1 and rets[0] in ("torch.tensor([[[$2[%0] for %0 in $0.features]] * len($1)], dtype=torch.float32)",)
     ctx.check(ok, "C20.R1", m, m.node, "the stored values (read by the same feature names) repeated once per requested age", "the constant trajectory is no longer the stored per-feature values repeated for each requested age")
     c = ix.func(CA, "ConstantPredictionAlgorithm.__init__", "C20.R1")
-    ctx.check("PredictionType(settings.parameters['prediction_type'])" in U(c.node), "C20.R1", c, c.node, "prediction type validated through the enum", "the prediction type is no longer validated through PredictionType(...)")
+    ctx.check(any("= PredictionType($1.parameters['prediction_type'])" in ln for ln in canon_lines(c.node)), "C20.R1", c, c.node, "prediction type validated through the enum", "the prediction type is no longer validated through PredictionType(...)")
 
 
 def _nc(expr_node, env):
@@ -100,30 +100,50 @@ def r2_lme(ctx):
     ctx.rule("C20.R2", "LME: parameter tables, age normalisation, random-effects formula, trajectory", 9)
     ix = ctx.ix
     fit = ix.func(LF, "LMEFitAlgorithm._run", "C20.R2")
+    cf = Canon(fit.node)
+    fl = cf.lines(False, True)
     written = set()
-    for x in ast.walk(fit.node):
-        if isinstance(x, ast.Assign) and U(x.targets[0]) == "parameters" and isinstance(x.value, ast.Dict):
-            written = {k.value for k in x.value.keys if isinstance(k, ast.Constant)}
-    if not written:
-        raise AnalysisError("C20.R2", "anchor vanished: `parameters = {...}` of the LME fit")
-    ctx.check("model.load_parameters(parameters)" in U(fit.node), "C20.R2", fit, fit.node, "the fitted parameters are loaded into the model", "the fit no longer loads its parameters into the model", construct="load_parameters")
+    loaded = None
+    for c in ast.walk(fit.node):
+        if isinstance(c, ast.Call) and isinstance(c.func, ast.Attribute) and c.func.attr == "load_parameters" and cf.text(c.func.value) == "$1" and c.args:
+            loaded = c.args[0]
+    if loaded is None:
+        ctx.violation("C20.R2", fit, fit.node, "the fit no longer loads its parameters into the model", construct="load_parameters")
+        return
+    ctx.ok("C20.R2", fit, fit.node, "the fitted parameters are loaded into the model", construct="load_parameters")
+    dct = loaded
+    if isinstance(loaded, ast.Name):
+        defs = [x.value for x in statements(fit.node) if isinstance(x, ast.Assign) and U(x.targets[0]) == loaded.id]
+        dct = defs[-1] if defs else None
+    if not isinstance(dct, ast.Dict):
+        raise AnalysisError("C20.R2", "anchor vanished: the dictionary literal of parameters loaded by the LME fit")
+    written = {k.value for k in dct.keys if isinstance(k, ast.Constant)}
+    stored = {k.value: cf.text(v, False, cf.last_order) for k, v in zip(dct.keys, dct.values) if isinstance(k, ast.Constant)}
     readers = [ix.func(LP, "LMEPersonalizeAlgorithm._get_individual_random_effects_and_residuals", "C20.R2"), ix.func("leaspy.models.lme", "LMEModel.compute_individual_trajectory", "C20.R2")]
     for r in readers:
         read = {x.slice.value for x in ast.walk(r.node) if isinstance(x, ast.Subscript) and U(x.value) in ("model.parameters", "self.parameters") and isinstance(x.slice, ast.Constant)}
         ctx.check(read <= written, "C20.R2", r, r.node, f"parameters read {sorted(read)} are all written by the fit", f"{r.qual} reads {sorted(read - written)} which the fit never writes (fit writes {sorted(written)})",
                   construct="parameters read vs written")
-    # age normalisations
+    # age normalisations: the value handed to sm.add_constant, as a function of (ages, mean, std)
     a, m, s = sp.symbols("age ages_mean ages_std", real=True)
     ref = (a - m) / s
+    DESIGN = "?X = sm.add_constant(?an, prepend=True, has_constant='add')"
+    bf = unify(fl, ["?ages = $0._get_reformated($2, 'timepoints')", "?m, ?s = (np.mean(?ages).item(), np.std(?ages).item())", DESIGN])
+    ctx.check(bf is not None and stored.get("ages_mean") == bf["m"] and stored.get("ages_std") == bf["s"], "C20.R2", fit, fit.node, "normalisation constants = mean / std of the training ages, stored as ages_mean / ages_std",
+              "the stored normalisation constants are no longer the mean / std of the training ages", construct="normalisation constants")
+    pl = Canon(readers[0].node).lines(False, True)
+    tl = Canon(readers[1].node).lines(False, True)
+    bp = unify(pl, [DESIGN])
+    bt = unify(tl, [DESIGN])
     sites = [
-        (fit, "ages_norm", {"ages": a, "ages_mean": m, "ages_std": s}),
-        (readers[0], "ages_norm", {"times": a, "model.parameters['ages_mean']": m, "model.parameters['ages_std']": s}),
-        (readers[1], "ages_norm", {"np.array(timepoints).reshape(-1)": a, "self.parameters['ages_mean']": m, "self.parameters['ages_std']": s}),
+        (fit, fl, bf, {canon_name(bf["ages"]): a, canon_name(bf["m"]): m, canon_name(bf["s"]): s} if bf else {}),
+        (readers[0], pl, bp, {"P_2": a, "P_1.parameters['ages_mean']": m, "P_1.parameters['ages_std']": s}),
+        (readers[1], tl, bt, {"np.array(P_1).reshape(-1)": a, "P_0.parameters['ages_mean']": m, "P_0.parameters['ages_std']": s}),
     ]
-    for f, var, env in sites:
-        st = [x for x in statements(f.node) if isinstance(x, ast.Assign) and U(x.targets[0]) == var]
-        if not st:
-            ctx.violation("C20.R2", f, f.node, "ages are no longer normalised", construct=f"{var} in {f.name}")
+    for f, lines, bnd, env in sites:
+        rhs = rhs_of(lines, bnd["an"]) if bnd else []
+        if len(rhs) != 1:
+            ctx.violation("C20.R2", f, f.node, "ages are no longer normalised before the design matrix [1, age] is built", construct=f"age normalisation in {f.name}")
             continue
 
         class N(Normalizer):
@@ -133,48 +153,46 @@ def r2_lme(ctx):
                     return env[t]
                 return super().tosym(e)
         try:
-            got = N({})(st[0].value)
-            ctx.check(equal(got, ref), "C20.R2", f, st[0], "(age - ages_mean)/ages_std", f"age normalisation is {got}; the other sites use (age - ages_mean)/ages_std")
+            got = N({})(parse_canon(rhs[0]))
+            ctx.check(equal(got, ref), "C20.R2", f, f.node, "(age - ages_mean)/ages_std", f"age normalisation is {got}; the other sites use (age - ages_mean)/ages_std", construct=f"age normalisation in {f.name}")
         except NFUnsupported as e:
-            ctx.unknown("C20.R2", f, st[0], str(e))
-    fs = U(fit.node)
-    ok = "ages_mean, ages_std = (np.mean(ages).item(), np.std(ages).item())" in fs
-    ctx.check(ok, "C20.R2", fit, fit.node, "normalisation constants = mean / std of the training ages", "the stored normalisation constants are no longer the mean / std of the training ages", construct="normalisation constants")
-    ok = "cov_re_unscaled_inv = np.linalg.inv(fitted_lme.cov_re_unscaled)" in fs and "'fe_params': fitted_lme.fe_params" in fs
+            ctx.unknown("C20.R2", f, f.node, str(e), construct=f"age normalisation in {f.name}")
+    bfit = unify(fl, ["?fitted = ?lme.fit(**$0.sm_fit_parameters)", "?cinv = np.linalg.inv(?fitted.cov_re_unscaled)"])
+    ok = bfit is not None and stored.get("cov_re_unscaled_inv") == bfit["cinv"] and stored.get("fe_params") == bfit["fitted"] + ".fe_params"
     ctx.check(ok, "C20.R2", fit, fit.node, "C = inverse of the fitted unscaled random-effects covariance; fe = fitted fixed effects", "stored variance components / fixed effects changed", construct="stored components")
     # random effects
     g = ix.func(LP, "LMEPersonalizeAlgorithm._generic_get_random_effects", "C20.R2")
-    inl = Inliner(g.node)
-    rets = [x for x in statements(g.node) if isinstance(x, ast.Return)]
+    cg = Canon(g.node)
+    rets = cg.returns()
     Z = sp.Symbol("Z", commutative=False)
     Zt = sp.Symbol("Z_T", commutative=False)
     r = sp.Symbol("resid", commutative=False)
     C = sp.Symbol("cov_re_unscaled_inv", commutative=False)
     try:
-        got = _nc(inl.resolve(rets[0].value), {"Z": Z, "resid": r, "cov_re_unscaled_inv": C})
+        got = _nc(parse_canon(rets[0]), {"P_1": Z, "P_0": r, "P_2": C})
         ref = (Zt * Z + C) ** -1 * (Zt * r)
-        ctx.check(sp.expand(got - ref) == 0, "C20.R2", g, rets[0], "random effects = inv(Z'Z + C) Z' r", f"random effects are {got}; documented {ref}")
-    except (NFUnsupported, IndexError) as e:
+        ctx.check(sp.expand(got - ref) == 0, "C20.R2", g, g.node, "random effects = inv(Z'Z + C) Z' r", f"random effects are {got}; documented {ref}", construct="generic random effects")
+    except (NFUnsupported, IndexError, SyntaxError) as e:
         ctx.unknown("C20.R2", g, g.node, f"random-effects expression outside the supported subset: {e}")
     p = readers[0]
-    ps = U(p.node)
-    ok = "residuals = values - X @ model.parameters['fe_params']" in ps and "X = sm.add_constant(ages_norm, prepend=True, has_constant='add')" in ps
-    ctx.check(ok, "C20.R2", p, p.node, "residuals = y - [1, age_norm] fe", "residuals are no longer y - X fe with X = [1, age_norm]", construct="residuals")
-    ok = "random_intercept = np.sum(residuals) / (n + cov_re_unscaled_inv.item())" in ps and "n = len(values)" in ps
+    bp = unify(pl, ["?an = ...", DESIGN, "?res = $3 - ?X @ $1.parameters['fe_params']", "?c = $1.parameters['cov_re_unscaled_inv']"])
+    ctx.check(bp is not None, "C20.R2", p, p.node, "residuals = y - [1, age_norm] fe", "residuals are no longer y - X fe with X = [1, age_norm]", construct="residuals")
+    bp = bp or {}
+    sub = {k: bp[k] for k in ("res", "c", "X") if k in bp}
+    ok = bool(sub) and (unify(pl, ["if not $1.with_random_slope_age", "?n = len($3)", "?ri = np.sum(?res) / (?n + ?c.item())", "?re = {'random_intercept': ?ri}", "return (?re, ?res)"], sub) is not None
+                        or unify(pl, ["if not $1.with_random_slope_age", "?ri = np.sum(?res) / (len($3) + ?c.item())", "?re = {'random_intercept': ?ri}", "return (?re, ?res)"], sub) is not None)
     ctx.check(ok, "C20.R2", p, p.node, "intercept-only shortcut = sum(r)/(n + c)", "the intercept-only random effect is no longer sum(r)/(n + c)", construct="intercept-only shortcut")
-    ok = "re = cls._generic_get_random_effects(residuals, X, cov_re_unscaled_inv).squeeze()" in ps and "{'random_intercept': re[0], 'random_slope_age': re[1]}" in ps
+    ok = bool(sub) and unify(pl, ["?g = $0._generic_get_random_effects(?res, ?X, ?c).squeeze()", "?re = {'random_intercept': ?g[0], 'random_slope_age': ?g[1]}", "return (?re, ?res)"], sub) is not None
     ctx.check(ok, "C20.R2", p, p.node, "(intercept, slope) = generic formula with Z = X", "random intercept / slope are no longer the two components of the generic formula with Z = X", construct="intercept and slope")
-    ok = "values, times = cls._remove_nans(values, times)" in ps
+    ok = "$3, $2 = $0._remove_nans($3, $2)" in pl
     ctx.check(ok, "C20.R2", p, p.node, "missing values dropped together with their ages", "missing values are no longer dropped (with their ages) before computing residuals", construct="NaN removal")
     t = readers[1]
-    ts = U(t.node)
-    trets = Canon(t.node).returns()
-    ok = len(trets) == 1 and trets[0] == ("torch.tensor(sm.add_constant((np.array($1).reshape(-1) - $0.parameters['ages_mean']) / $0.parameters['ages_std'], prepend=True, has_constant='add') "
-                                          "@ ($0.parameters['fe_params'] + re_params), dtype=torch.float32).reshape((1, -1, 1))")
-    ctx.check(ok, "C20.R2", t, t.node, "trajectory = [1, age_norm] (fe + re): a straight line in age", "the LME trajectory is no longer X (fe + re)")
-    ok = "re_params = np.array([individual_parameters['random_intercept'].item(), 0])" in ts and "if not self.with_random_slope_age" in ts
+    bt = unify(tl, [DESIGN, "?y = ?X @ ($0.parameters['fe_params'] + ?re)", "return torch.tensor(?y, dtype=torch.float32).reshape((1, -1, 1))"]) \
+        or unify(tl, [DESIGN, "return torch.tensor(?X @ ($0.parameters['fe_params'] + ?re), dtype=torch.float32).reshape((1, -1, 1))"])
+    ctx.check(bt is not None, "C20.R2", t, t.node, "trajectory = [1, age_norm] (fe + re): a straight line in age", "the LME trajectory is no longer X (fe + re)")
+    ok = bt is not None and unify(tl, ["if not $0.with_random_slope_age", "?re = np.array([$2['random_intercept'].item(), 0])", "?re = np.array([$2['random_intercept'].item(), $2['random_slope_age'].item()])"], {"re": bt["re"]}) is not None
     ctx.check(ok, "C20.R2", t, t.node, "random slope forced to 0 when the model has none", "the random slope is not forced to 0 for an intercept-only model", construct="no-slope case")
-    ok = "exog_re = X" in fs and "exog_re = None" in fs and "if model.with_random_slope_age" in fs
+    ok = bf is not None and unify(fl, ["if $1.with_random_slope_age", "?zre = ?X", "?zre = None", "?lme = MixedLM(?y, ?X, ?groups, ?zre, missing='raise')"], {"X": bf["X"]}) is not None
     ctx.check(ok, "C20.R2", fit, fit.node, "random-effects design = X with a random slope, intercept only otherwise", "the random-effects design of the fit changed", construct="random-effects design")
 
 
